@@ -173,7 +173,10 @@ def deadline_texts(n):
     import random
     rnd = random.Random(1)
     words = [''.join(rnd.choice('abcdefghij') for _ in range(rnd.randint(2, 7))) for _ in range(3000)]
-    return tuple(' '.join(random.Random(seed).choice(words) for _ in range(n)) for seed in (1, 2))
+    def text(seed):
+        r = random.Random(seed)
+        return ' '.join(r.choice(words) for _ in range(n))
+    return text(1), text(2)
 
 
 def main():
